@@ -74,7 +74,7 @@ class World:
         self.pseq = "".join(p)
         self.strand = {"hg19": spec.strands[0], "hg38": spec.strands[1]}
         self.alleles = allele_table(spec.table, self.seq, spec.pseudo)
-        self.tandems = [["13", "1"]] if spec.table == "rich" and spec.pseudo else []
+        self.tandems = [["13", "1"]] if spec.table in ("rich", "richd") and spec.pseudo else []
 
     # -------------------------------------------------------------- coordinates
     def glen(self):
@@ -230,7 +230,7 @@ def allele_table(table, seq, pseudo):
             ("GEN*2.002", {"mutations": [snv(s, 150, None, "rs150", "functional"), snv(s, 331, None, "rs331")]}),
             ("GEN*3.001", {"mutations": [snv(s, 170, None, "rs170", "functional"), snv(s, 231, None, "rs231")]}),
         ])
-    assert table == "rich", table
+    assert table in ("rich", "richd"), table
     mnv = f"{s[309:311]}>{COMP[s[309]] + COMP[s[310]]}"
     d = collections.OrderedDict([
         ("GEN*1.001", {"mutations": []}),
@@ -253,6 +253,8 @@ def allele_table(table, seq, pseudo):
         d["GEN*13.001"] = {"mutations": [["GENP", "i2-"], snv(s, 530, None, "rs530", "functional")]}
         d["GEN*14.001"] = {"mutations": [["GENP", "e3+"]]}
     d["GEN*15.001"] = {"mutations": [["GEN", "deletion:e3,down"], snv(s, 180, None, "rs180", "functional")]}
+    if table == "richd":      # plus a deletion-insertion (as CYP2A6*27 has)
+        d["GEN*16.001"] = {"mutations": [[390, f"del{s[389:391]}ins{COMP[s[389]]}", "rs390", "frameshift"]]}
     return d
 
 
